@@ -49,7 +49,57 @@ def compute(facts, crates=None, rounds=2):
     return out
 
 
+def getters(facts, crates=None):
+    """plain field getters: `fn f(&self) -> int { self.a.b }` -> the MIR projection list of the returned place"""
+    from .mir import op_place
+    out = {}
+    crates = [c for c in (crates or facts.crates) if c in facts.crates]
+    for c in crates:
+        for b in facts.all_bodies(c, kinds=("fn",)):
+            if b.argc != 1 or len(b.blocks) > 2 or ty_range(b.locals[0][0]) is None or not b.locals[1][0].startswith("&"):
+                continue
+            if b.locals[1][0].startswith("&mut"):
+                continue
+            stmts = [st for blk in b.blocks if not blk.cleanup for st in blk.stmts if st[0] == "A"]
+            if not stmts or len(stmts) > 2 or any(blk.term.kind not in ("ret", "goto") for blk in b.blocks if not blk.cleanup):
+                continue
+            src = None
+            ok = True
+            cur = None     # local currently holding the value
+            for st in stmts:
+                pl, rv = st[1], st[2]
+                if pl[1] or rv[0] != "use":
+                    ok = False
+                    break
+                p = op_place(rv[1])
+                if p is None:
+                    ok = False
+                    break
+                if src is None:
+                    if p[0] != 1 or not p[1] or p[1][0] != "*" or not all(isinstance(e, list) and e[0] == "f" for e in p[1][1:]) or len(p[1]) < 2:
+                        ok = False
+                        break
+                    src = p[1]
+                    cur = pl[0]
+                else:
+                    if p[1] or p[0] != cur:
+                        ok = False
+                        break
+                    cur = pl[0]
+            if ok and src is not None and cur == 0:
+                out[b.path] = src
+    return out
+
+
+def register_getters(facts, crates=None):
+    if getattr(facts, "_getters", None) is None:
+        facts._getters = getters(facts, crates)
+    intervals.GETTERS.clear()
+    intervals.GETTERS.update(facts._getters)
+
+
 def register(facts, crates=None):
+    register_getters(facts, crates)
     if getattr(facts, "_retsum", None) is None:
         facts._retsum = compute(facts, crates)
     intervals.RET_RANGES.clear()
